@@ -30,6 +30,8 @@ for d in sorted(glob.glob(os.path.join(VERIF, "seeded", "*"))):
             status = "DETECTED (VIOLATION, replay-confirmed)"
         elif status == "not evaluated":
             status = "missed (exit %s)" % r.get("exit") if r.get("exit") in (0,) else "inconclusive (exit %s)" % r.get("exit")
+    if m.get("valid") is False:
+        status = "no longer valid: " + m.get("invalidated", "")[:140]
     rows.append((name, m.get("property"), title, status, ", ".join(sorted(set(caught)))[:160], m.get("needs", "")))
 with open(os.path.join(VERIF, "seeded", "README.md"), "w") as f:
     f.write("# Seeded changes\n\nEach directory: `patch.diff` (applies to /repo HEAD), `demo.rs` (fails with the change, passes without), "
